@@ -477,7 +477,7 @@ func c08(r *hx.Run) {
 	}
 	var cases []c08Case
 	id := 0
-	reps := r.Pick(1, 12)
+	reps := r.Pick(1, 30)
 	for rep := 0; rep < reps; rep++ {
 		for _, p := range points {
 			nths := []int{1, 5 + rnd.Intn(8)}
